@@ -2898,7 +2898,8 @@ template< size_t L>
       FixedString< L>::replace( size_t pos, size_t count, size_t count2,
          char ch) noexcept
 {
-   return replace( pos, count, std::string( count2, ch));
+   // do not build more than fits, count2 can be max(64bit)
+   return replace( pos, count, std::string( std::min( count2, L), ch));
 } // FixedString< L>::replace
 
 
